@@ -1,3 +1,3 @@
-CONSTANTS Scope = "table" TableLo = 3 NTable = 6 MaxLen = 2 RunCalls = TRUE Transports = {"grpc", "rest"} FreeJitter = FALSE Mutant = "none"
+CONSTANTS Scope = "table" TableLo = 3 NTable = 6 MaxLen = 1 RunCalls = TRUE Transports = {"grpc", "grpc_asyncio", "rest"} FreeJitter = FALSE Mutant = "none"
 SPECIFICATION Spec
 INVARIANT EmitRun
